@@ -1084,7 +1084,9 @@ pub fn run_case(case: &Case, stats: &mut Stats) -> RunReport {
                     );
                 }
                 // ---- R7: no memory - a fresh twin under the current environment agrees
-                let fresh = {
+                // a fixed sample of twins runs on a brand new thread (see c04.rs)
+                let fresh = if (case.run + opi as u64) % 32 == 0 {
+                    stats.bump("probe.twin_on_fresh_thread");
                     let opts = l.opts.clone();
                     let op2 = op.clone();
                     let env = world::with(|s| s.env.clone());
@@ -1096,6 +1098,13 @@ pub fn run_case(case: &Case, stats: &mut Stats) -> RunReport {
                         };
                         run_on(&twin, &op2)
                     })
+                } else {
+                    let twin = Live {
+                        opts: l.opts.clone(),
+                        parser: exec::build_unchecked(&l.opts),
+                        ix: index(&l.opts),
+                    };
+                    run_on(&twin, op)
                 };
                 stats.bump("rule.R7.evaluated");
                 if !fresh.same_result(&first) {
